@@ -208,7 +208,9 @@ bool Interp::call(Function &Fn, Frame &F, CallBase &CB, Guard &guard) {
   // ---- allocation monitor
   static const char *allocs[] = {"_Znwm", "_Znam", "_ZnwmSt11align_val_t", "_ZnamSt11align_val_t", "_ZnwmRKSt9nothrow_t", "_ZnamRKSt9nothrow_t", "malloc", "calloc", "realloc", "posix_memalign", "aligned_alloc", "memalign", "valloc", "_mm_malloc", nullptr};
   for (int i = 0; allocs[i]; i++) if (n == allocs[i]) {
-    if (monitor) find("alloc", -1, 0, 0, 0, src, n);
+    // an allocation made by the witness harness itself (e.g. the std::vector it hands to a constructor) is not the library's;
+    // one made under a frame of the library — inlined or called — is
+    if (monitor && (src >= 0 || fastorCallDepth > 0)) find("alloc", -1, 0, 0, 0, src, n);
     AV sz = arg(n == "aligned_alloc" || n == "memalign" ? 1 : 0)[0];
     if (n == "calloc") { AV b = arg(1)[0]; if (sz.k == AV::INT && b.k == AV::INT) sz = AV::Int(sz.i * b.i, 8); }
     if (n == "posix_memalign" || n == "realloc" || sz.k != AV::INT) { err("allocation with data-dependent size or unsupported form: " + n); setTop(); return true; }
@@ -262,7 +264,9 @@ bool Interp::call(Function &Fn, Frame &F, CallBase &CB, Guard &guard) {
       for (int64_t o = 0; o < sz && sp.off + o < SR.size; o++) { ByteRef b = SR.bytes[sp.off + o]; S.R[r].bytes[o] = b; }
       as[i] = VV{AV::Ptr(r, 0)};
     }
+    bool fromFastor = src >= 0; if (fromFastor) fastorCallDepth++;
     State backup; Result r = run(*CF, as);
+    if (fromFastor) fastorCallDepth--;
     if (r.normal.isFalse()) { abnormalExit(guard, "callee " + n.substr(0, 60) + " never returns normally", CB); return false; }
     if (!r.normal.isTrue()) guard = gAnd(guard, r.normal);
     if (!RT->isVoidTy()) { if (r.val.empty()) setTop(); else F.env[&CB] = r.val; }
